@@ -144,6 +144,7 @@ type sched struct {
 	maxIn   map[string]int
 	yield   func()                 // free-running mode: called at gates to shake the schedule
 	freeCmd func(kind string) gcmd // free-running mode: outcome / fault chosen by the driver
+	serial  *sync.Mutex            // free-running mode: backend operation + its log line are one critical section
 	flavour int                    // rotates the error flavour of failing builders
 	lastExp map[string]string      // process -> last expired value its backend read returned
 	gateLog bool
@@ -344,6 +345,11 @@ func (g *gateRW) Read(ctx context.Context, key []byte) (interface{}, error) {
 		return nil, tokErr{tok: "BE:r"}
 	}
 
+	if g.s.serial != nil {
+		g.s.serial.Lock()
+		defer g.s.serial.Unlock()
+	}
+
 	v, err := g.inner.Read(ctx, key)
 	r := classifyAny(v, err)
 
@@ -380,6 +386,11 @@ func (g *gateRW) Write(ctx context.Context, key []byte, v interface{}) error {
 	if !g.s.steer {
 		// really concurrent run: the value counts as stored from the moment the write is attempted, so that a reader
 		// that sees it can never be recorded before it
+		if g.s.serial != nil {
+			g.s.serial.Lock()
+			defer g.s.serial.Unlock()
+		}
+
 		g.s.rec(Event{Ev: "beWrite", P: p, K: mk, V: decAny(v), TTL: ttl, C: "ok"})
 
 		return g.inner.Write(ctx, key, v)
@@ -405,6 +416,11 @@ func (g *gateRWOf) Read(ctx context.Context, key []byte) (string, error) {
 		g.s.rec(Event{Ev: "beRead", P: p, K: mk, C: "beerr", Err: "BE:r"})
 
 		return "", tokErr{tok: "BE:r"}
+	}
+
+	if g.s.serial != nil {
+		g.s.serial.Lock()
+		defer g.s.serial.Unlock()
 	}
 
 	v, err := g.inner.Read(ctx, key)
@@ -445,6 +461,11 @@ func (g *gateRWOf) Write(ctx context.Context, key []byte, v string) error {
 	}
 
 	if !g.s.steer {
+		if g.s.serial != nil {
+			g.s.serial.Lock()
+			defer g.s.serial.Unlock()
+		}
+
 		g.s.rec(Event{Ev: "beWrite", P: p, K: mk, V: v, TTL: ttl, C: "ok"})
 
 		return g.inner.Write(ctx, key, v)
